@@ -47,7 +47,7 @@ impl Prop for C11 {
         "one case = (world, history of next/peek_n/set_mode/set_offset) from (seed, run index); distinct = distinct hash of literal world+history; non-trivial = at least one peek whose window spans a character no pattern matches, or ends at a mode-switching token"
     }
     fn runs(&self) -> (u64, u64) {
-        (120_000, 3_000_000)
+        (400_000, 15_000_000)
     }
     fn expected_probes(&self) -> &'static [&'static str] {
         &[
